@@ -20,7 +20,40 @@ use std::collections::VecDeque;
 pub struct Blob { b: Vec<u8> }
 #[verifier::external_body]
 pub struct Instant { x: u8 }
+// ---- operational loop (run_loop, ingress-read arm)
+// EgressBuffer (proved in unit egress): here only the ghost order of what was queued with priority
+pub struct EgressBuffer { pub prio: Ghost<Seq<Seq<u8>>> }
+impl EgressBuffer {
+  #[verifier::external_body]
+  pub fn push_priority(&mut self, data: Bytes) ensures final(self).prio@ == old(self).prio@.push(data@) { unimplemented!() }
+}
+// The socket's write half.  In the operational loop the byte stream belongs to the EgressBuffer/EgressDriver pair (a chunk may be
+// partially written at any time): a direct write would land inside another frame.  The stand-in states that frame condition
+// as a contract: no direct write is permitted there.
+pub struct IoErr { pub x: u8 }
+impl ZmqError { #[verifier::external_body] pub fn from_io_endpoint(e: IoErr, what: &str) -> ZmqError { unimplemented!() } }
+pub struct DirectWriter { pub x: u8 }
+impl DirectWriter {
+  #[verifier::external_body]
+  pub async fn write_all(&mut self, data: &Bytes) -> (r: Result<(), IoErr>)
+    requires false     // every byte of the operational phase goes through the egress buffer (C01/C19: never inside another frame)
+  { unimplemented!() }
+}
+#[verifier::external_body]
+pub struct CorkInfo { x: u8 }
+impl CorkInfo { #[verifier::external_body] pub async fn apply_cork_state(&mut self, enable: bool, handle: usize) -> (r: ()) { unimplemented!() } }
+#[verifier::external_body]
+pub struct Duration { x: u8 }
+pub open spec fn sends(acts: Seq<NetAction>, k: int) -> Seq<Seq<u8>>
+  decreases k
+{
+  if k <= 0 { Seq::<Seq<u8>>::empty() } else {
+    match acts[k - 1] { NetAction::Send { data, .. } => sends(acts, k - 1).push(data@), _ => sends(acts, k - 1) }
+  }
+}
 pub struct Actor {
+  pub handle: usize,
+  pub cork_info: Option<CorkInfo>,
   pub pending_peer_identity_from_handshake: Option<Blob>,
   pub pending_peer_socket_type: Option<String>,
   pub current_phase: ConnectionPhaseX,
@@ -30,6 +63,8 @@ pub struct Actor {
 impl Actor {
   #[verifier::external_body]
   pub async fn set_fatal_error(&mut self, e: ZmqError) -> (r: ()) ensures final(self).fatal@ { unimplemented!() }
+  #[verifier::external_body]
+  pub async fn transition_to_shutdown_stream(&mut self, e: Option<ZmqError>) -> (r: ()) { unimplemented!() }
   #[verifier::external_body]
   pub async fn check_and_transition_to_operational(&mut self) -> (r: ()) ensures final(self).fatal == old(self).fatal { unimplemented!() }
 }
@@ -55,6 +90,7 @@ parts = [
   Raw(text="#[verifier::external_body]\npub struct BlobFwd { x: u8 }\n", label="hsout-pre"),
   Raw(text=GLUE.split("pub struct Actor")[0], label="hsout-glue-a"),
   Item(ACT, "enum", "AppAction", keep_derive=()),
+  Item(ACT, "enum", "NetAction", keep_derive=()),
   Raw(text="pub struct Actor" + GLUE.split("pub struct Actor")[1], label="hsout-glue-b"),
   Region(ACTOR, "hs_app_actions", "apply_engine_output_handshake", r"for action in output\.app_actions \{", "@fn_end",
          sig="async fn hs_app_actions(&mut self, app_actions: Vec<AppAction>, ingress_buffer: &mut VecDeque<FrameBatch>)",
@@ -73,7 +109,28 @@ parts = [
                  "proof { let k = vx_i0 as int; assert(vx_o0[k - 1] == vx_act); "
                  "match vx_act { AppAction::DeliverMessage(b) => { if ingress_buffer@ =~= vx_q0.push(b) { assert(views(ingress_buffer@) =~= views(vx_q0).push(b@)); } }, _ => { } } }")],
          extra=[("R7", "output.app_actions", "app_actions", 1)]),
+  # ---- the operational loop's handling of the same engine output (run_loop, ingress-read arm of its select!)
+  Region(ACTOR, "op_net_actions", "run_loop", r"for action in engine_out\.net_actions \{", r"for action in engine_out\.app_actions \{",
+         sig="async fn op_net_actions(&mut self, net_actions: Vec<NetAction>, egress_buffer: &mut EgressBuffer, write_half: &mut DirectWriter)",
+         impl=r"impl(?:<[^>]*>)?\s+SessionConnectionActorX\b", emit_impl="impl Actor", ret=None, attrs=["#[verifier::loop_isolation(false)]"],
+         ensures=[("C01+C19:protocol_replies_are_queued_through_the_egress_buffer_in_order_never_written_directly",
+                   "final(egress_buffer).prio@ =~= old(egress_buffer).prio@ + sends(net_actions@, net_actions@.len() as int)")],
+         loops={0: {"desugar_owned": True, "invariant": [("C01+C19:loop", "egress_buffer.prio@ =~= old(egress_buffer).prio@ + sends(net_actions@, vx_i0 as int)")]}},
+         hints=[("snap", "re:match action \\{", 0, "before", "let ghost vx_act = action;"),
+                ("step", "@loop_end:0", 0, "", "proof { let k = vx_i0 as int; assert(vx_o0[k - 1] == vx_act); }")],
+         extra=[("R7", "engine_out.net_actions", "net_actions", 1), ("R4", '#[cfg(target_os = "linux")]', "", "*")]),
+  Region(ACTOR, "op_app_actions", "run_loop", r"for action in engine_out\.app_actions \{", r"\}\s*\n\s*Err\(ZmqError::ConnectionClosed\) => \{",
+         sig="async fn op_app_actions(&mut self, app_actions: Vec<AppAction>, ingress_buffer: &mut VecDeque<FrameBatch>)",
+         impl=r"impl(?:<[^>]*>)?\s+SessionConnectionActorX\b", emit_impl="impl Actor", ret=None, attrs=["#[verifier::loop_isolation(false)]"],
+         ensures=[("C01+C04:every_decoded_message_reaches_the_ingress_queue_in_order",
+                   "views(final(ingress_buffer)@) =~= views(old(ingress_buffer)@) + deliveries(app_actions@, app_actions@.len() as int)")],
+         loops={0: {"desugar_owned": True, "invariant": [("C04:loop", "views(ingress_buffer@) =~= views(old(ingress_buffer)@) + deliveries(app_actions@, vx_i0 as int)")]}},
+         hints=[("snap", "re:match action \\{", 0, "before", "let ghost vx_act = action; let ghost vx_q0 = ingress_buffer@;"),
+                ("step", "@loop_end:0", 0, "",
+                 "proof { let k = vx_i0 as int; assert(vx_o0[k - 1] == vx_act); "
+                 "match vx_act { AppAction::DeliverMessage(b) => { if ingress_buffer@ =~= vx_q0.push(b) { assert(views(ingress_buffer@) =~= views(vx_q0).push(b@)); } }, _ => { } } }")],
+         extra=[("R7", "engine_out.app_actions", "app_actions", 1)]),
 ]
 
 FNS = {p.name: p for p in parts if isinstance(p, Fn)}
-unit = Unit("hsout", ["C04"], parts, safety_props=["C04"], notes="session actor: engine output during the handshake")
+unit = Unit("hsout", ["C04", "C01", "C19"], parts, safety_props=["C04", "C01", "C19"], notes="session actor: engine output during the handshake")
